@@ -323,6 +323,26 @@ def failed_case(old, new, fault, up, api):
     got = w.tables[k1].table
     if want != got:
         return {'what': 'a reload that FAILED changed the routes a peer holds', 'input': inp, 'expected_old_configuration': str(sorted(want.items())), 'observed': str(sorted(got.items()))}
+    # ... and nothing of the rejected file survives: the operator corrects the file, the next reload must succeed (twice),
+    # and the peer then holds exactly what the corrected file says -- no route which only the rejected file contained
+    try:
+        cfg._configurations = [config_text(new) + N2.format(nh='192.0.2.1')]
+        for attempt in (1, 2):
+            if w.reactor.reload() is not True:
+                return {'what': f'after one rejected file, reload {attempt} of a CORRECT file fails: {str(cfg.error)[:160]}', 'input': inp}
+            for _ in range(3):
+                for k in list(w.peers()):
+                    if '127.0.0.1 ' in k or '127.0.0.2 ' in k:
+                        w.turn(k)
+        k1b = [k for k in w.peers() if '127.0.0.1 ' in k][0]
+        want2 = expected_table(new, api_routes)
+        got2 = w.tables[k1b].table
+        if want2 != got2:
+            return {'what': 'after a rejected file and then the corrected one, the peer does not hold what the corrected file says', 'input': inp, 'expected_new_configuration': str(sorted(want2.items())), 'observed': str(sorted(got2.items()))}
+    except Exception as e:  # noqa
+        import traceback
+
+        return {'what': f'reloading the corrected file raised {type(e).__name__}: {str(e)[:200]}', 'input': inp, 'trace': traceback.format_exc()[-500:]}
     return None
 
 
